@@ -10,7 +10,7 @@ use std::sync::{Arc, Barrier};
 type Obs = Vec<(usize, usize, usize)>;
 
 fn modes(k: usize) -> Vec<ScannerMode> {
-    match k % 4 {
+    match k % 5 {
         0 => vec![ScannerMode::new(
             "M",
             vec![Pattern::new("ab+".to_string(), 0), Pattern::new("c+".to_string(), 1)],
@@ -37,7 +37,14 @@ fn modes(k: usize) -> Vec<ScannerMode> {
             vec![],
         )],
         // a failing build: unsupported feature
-        _ => vec![ScannerMode::new("F", vec![Pattern::new("^a".to_string(), 0)], vec![])],
+        3 => vec![ScannerMode::new("F", vec![Pattern::new("^a".to_string(), 0)], vec![])],
+        // a failing build whose pattern is long and full of multi-byte characters (error paths format it
+        // while the cache lock is held)
+        _ => vec![ScannerMode::new(
+            "G",
+            vec![Pattern::new(format!("x{}\\b", "\u{e9}\u{20ac}a".repeat(14)), 0)],
+            vec![],
+        )],
     }
 }
 
@@ -56,7 +63,7 @@ fn thread_actions(t: usize, shared: &scnr::Scanner) -> Vec<Result<Obs, String>> 
     let input = "abxabbcxa";
     let mut out = Vec::new();
     for step in 0..3 {
-        let k = (t + step) % 4;
+        let k = (t + step) % 5;
         out.push(build_and_scan(k, input));
         out.push(Ok(scan(shared, input)));
         // a partially consumed iterator of the shared scanner with a mode switch
